@@ -1,3 +1,4 @@
+#include <memory>
 // C14 - flush points are byte-aligned, complete and (for full flush) independent
 #include "igzcheck.h"
 #include "datagen.h"
@@ -182,12 +183,19 @@ static void body_stateless_concat(Tape &t, Ctx &c) {
 	c.fpmix(dg::fingerprint(segs)); c.fpmix(level); c.fpmix(mix64((uint64_t) (uintptr_t) lv));
 	std::vector<uint8_t> joined;
 	size_t pos = 0;
+	// one case in three keeps ONE stream object for all pieces, the way igzip_rand_test's stateless full-flush driver does: total_in / total_out then
+	// start from non-zero values in every call after the first (Deflater::call compares their deltas with the bytes consumed / produced)
+	bool reuse = impatient;
+	std::unique_ptr<igz::Deflater> shared;
 	for (int i = 0; i < npieces; i++) {
 		igz::DefOpts o;
 		o.level = level;
 		o.stateless = true;
 		o.lbuf_size = igz::lvl_buf_size(level, (int) t.range(0, 3));
-		igz::Deflater d(o);
+		std::unique_ptr<igz::Deflater> own;
+		if (reuse) { if (!shared) shared.reset(new igz::Deflater(o)); } else own.reset(new igz::Deflater(o));
+		igz::Deflater &d = reuse ? *shared : *own;
+		size_t out_before = d.out.size();
 		bool final = i == npieces - 1;
 		// non-final pieces: FULL_FLUSH with end_of_stream = 0; final piece: end_of_stream = 1
 		size_t len = segs[i].len;
@@ -203,20 +211,21 @@ static void body_stateless_concat(Tape &t, Ctx &c) {
 		PBT_CHECK(!ci.faulted && ci.problem.empty(), "deflate:stateless-concat:fault", "%s: %s", where.c_str(), ci.problem.c_str());
 		PBT_CHECK(ci.rc == COMP_OK, "deflate:stateless-concat:rc", "%s: returned %d", where.c_str(), ci.rc);
 		if (!final) {
-			refinf::Result r = refinf::inflate(d.out.data(), d.out.size());
-			PBT_CHECK(r.st == refinf::TRUNCATED && r.at_block_boundary && r.last_block_end_bit == (uint64_t) d.out.size() * 8, "deflate:stateless-concat:aligned",
-			          "%s: output is not a byte-aligned unterminated sequence of blocks (%s, last block ends at bit %llu of %zu)", where.c_str(), refinf::status_name(r.st), (unsigned long long) r.last_block_end_bit, d.out.size() * 8);
+			refinf::Result r = refinf::inflate(d.out.data() + out_before, d.out.size() - out_before);
+			PBT_CHECK(r.st == refinf::TRUNCATED && r.at_block_boundary && r.last_block_end_bit == (uint64_t) (d.out.size() - out_before) * 8, "deflate:stateless-concat:aligned",
+			          "%s: output is not a byte-aligned unterminated sequence of blocks (%s, last block ends at bit %llu of %zu)", where.c_str(), refinf::status_name(r.st), (unsigned long long) r.last_block_end_bit, (d.out.size() - out_before) * 8);
 			for (auto &b : r.blocks) PBT_CHECK(!b.bfinal, "deflate:stateless-concat:aligned", "%s: a non-final piece contains a BFINAL block", where.c_str());
 			std::vector<uint8_t> piece(all.begin() + pos, all.begin() + pos + len);
 			PBT_CHECK(r.out == piece, "deflate:stateless-concat:decode", "%s: piece does not decode to its input", where.c_str());
 		}
-		joined.insert(joined.end(), d.out.begin(), d.out.end());
+		joined.insert(joined.end(), d.out.begin() + out_before, d.out.end());
 		pos += len;
-		guard::release_all();
+		if (!reuse) { own.reset(); guard::release_all(); }
 	}
 	std::string v = igzc::verify_stream(joined, all, IGZIP_DEFLATE, 0);
 	PBT_CHECK(v.empty(), "deflate:stateless-concat:decode", "appended outputs of %d stateless calls (level %d, cpu %s) are not one valid stream for the concatenated input: %s", npieces, level, lv, v.c_str());
 	c.nontrivial = all.size() >= 64;
+	if (reuse) c.label("one-stream-object-for-all-pieces");
 	c.label(fmt("level=%d", level));
 	if (c.want_sample) c.sample = fmt("{\"pieces\":%s,\"level\":%d,\"cpu\":\"%s\",\"joined_bytes\":%zu}", dg::describe(segs).c_str(), level, lv, joined.size());
 }
